@@ -234,9 +234,36 @@ module L = struct
     print_obs s
 end
 
+(* ------------------------------------------------------------------ leaf functions (stateless) *)
+
+module Leaf = struct
+  let exec (f : string list) =
+    let i n = int_of_string (Stdlib.List.nth f n) in
+    let zi n = z_of_int (i n) in
+    match Stdlib.List.hd f with
+    | "LSC" ->
+      let s = zi 1 in
+      let mc = Tlsf.size_to_class s in
+      let sli = Tlsf.size_to_sli s mc in
+      Printf.printf "R sc %d %d %d %d\n" (int_of_z mc) (int_of_z sli) (int_of_z (Tlsf.list_index mc sli))
+        (int_of_z (Tlsf.size_for_next_list s))
+    | "LAL" ->
+      Printf.printf "R al %d %d\n" (int_of_z (Util.align_up (zi 1) (zi 2))) (int_of_z (Util.align_down (zi 1) (zi 2)))
+    | "LPG" ->
+      (match Linear.blocks_on_same_page (zi 1) (zi 2) (zi 3) (zi 4) with
+       | None -> print_endline "R panic"
+       | Some b -> Printf.printf "R pg %d\n" (bool_int b))
+    | "LCF" -> Printf.printf "R cf %d\n" (bool_int (Gran.conflict (zi 1) (zi 2)))
+    | "LRU" ->
+      let g = { Gran.g_h = Gran.HVam; Gran.g_g = zi 1; Gran.g_regions = [] } in
+      let (s', a') = Gran.round_up g (zi 2) (zi 3) (zi 4) in
+      Printf.printf "R ru %d %d\n" (int_of_z s') (int_of_z a')
+    | _ -> ()
+end
+
 (* ------------------------------------------------------------------ main loop *)
 
-type anyst = NoSt | TSt of T.st | LSt of L.st
+type anyst = NoSt | LeafSt | TSt of T.st | LSt of L.st
 
 let () =
   let ic = if Array.length Sys.argv > 1 then open_in Sys.argv.(1) else stdin in
@@ -257,7 +284,8 @@ let () =
          (match !st with
           | TSt s -> print_endline line; T.exec s f
           | LSt s -> print_endline line; L.exec s f
-          | NoSt -> ())
+          | _ -> ())
+       | ("LSC" | "LAL" | "LPG" | "LCF" | "LRU") :: _ -> print_endline line; Leaf.exec f
        | _ -> ()
      done
    with End_of_file -> ())
